@@ -6,7 +6,7 @@ import subprocess
 import time
 
 REFUTED_PAT = re.compile(
-    r'postcondition not satisfied|precondition not satisfied|assertion failed|invariant not satisfied|'
+    r'postcondition not satisfied|precondition not satisfied|precondition not met|assertion failed|invariant not satisfied|'
     r'possible arithmetic (?:underflow/overflow|overflow|underflow)|possible division by zero|'
     r'decreases not satisfied|possible bit shift underflow/overflow|unable to prove|'
     r'recommendation not met|cannot show .* is nonnegative|could not prove termination|'
